@@ -82,6 +82,8 @@ CHECKS["C06"] = (MC,
     "mergetool, and TLC checks no-conflict and merged = expected. Generic JSON cases are constructed exhaustively over a small family.",
     MERGE_NOTE, "DESIGN.md §5 C06")
 CHECKS["C07"] = (MC,
+    "TLC model checking of the transcribed line based string merge (MergeAlgo.tla, kind strings) and of the built-in conflict renderer "
+    "(MergeRender.tla: Survive, Provenance, MarkersInOrder on every pair of texts; equal to nbdime's output) + "
     "TLC trace validation (MergeTrace.tla: LinesSurvive, LinesProvenance, SameLineFlagged over line sets computed by the spec) of default-"
     "strategy merges under git merge-file / diff3 / built-in",
     "For every default-strategy merge of the C03 triples under each text-merge helper TLC computes the source line sets of base, local, "
